@@ -11,6 +11,7 @@ import (
 	"os/exec"
 	"path/filepath"
 	"sort"
+	"strconv"
 	"strings"
 	"sync"
 	"time"
@@ -40,6 +41,7 @@ func newIncSolver(prelude string) (*IncSolver, error) {
 		return nil, err
 	}
 	s := &IncSolver{cmd: cmd, in: in, out: bufio.NewReader(out), declared: map[string]bool{}, sorts: map[*Sort]bool{}, cache: map[string]bool{}}
+	io.WriteString(in, s.declare([]*Term{zeroTerm(SSlice), zeroTerm(SIface)}))
 	io.WriteString(in, preludeBase)
 	io.WriteString(in, prelude)
 	return s, nil
@@ -69,7 +71,7 @@ func (s *IncSolver) declare(ts []*Term) string {
 		b.WriteString("))))\n")
 	}
 	for _, t := range order {
-		if t.Op == "var" && !s.declared[t.Str] {
+		if (t.Op == "var" || t.Op == "hext") && !s.declared[t.Str] {
 			s.declared[t.Str] = true
 			fmt.Fprintf(&b, "(declare-fun %s () %s)\n", smtName(t.Str), t.Sort.Name)
 		}
@@ -91,6 +93,7 @@ func (s *IncSolver) declare(ts []*Term) string {
 // Feasible reports whether pc ∧ extra may be satisfiable (unknown counts as feasible).
 func (s *IncSolver) Feasible(pc []*Term, extra *Term) bool {
 	all := append(append([]*Term{}, pc...), extra)
+	all = append(imageFacts(all), all...)
 	var kb strings.Builder
 	for _, t := range all {
 		fmt.Fprintf(&kb, "%d,", t.id)
@@ -204,6 +207,42 @@ func runBackend(ctx context.Context, b backend, file string, timeout int) (strin
 	return first, text
 }
 
+
+
+// obligationChunks splits the cases of a (non-cover) obligation into several
+// smaller queries; all must be unsat.
+func obligationChunks(ob *Obligation, prelude string) []*Script {
+	if len(ob.Cases) <= 1 {
+		return []*Script{obligationScript(ob, prelude)}
+	}
+	if ob.Cover {
+		// satisfiable as soon as one path is: try the first few paths separately
+		var out []*Script
+		for i := 0; i < len(ob.Cases) && i < 4; i++ {
+			sub := &Obligation{Name: ob.Name, Cover: true, Cases: ob.Cases[i : i+1]}
+			out = append(out, obligationScript(sub, prelude))
+		}
+		return out
+	}
+	// one path per query while that stays below ~48 queries, larger groups beyond
+	chunkSize := (len(ob.Cases) + 47) / 48
+	if s := os.Getenv("GOVC_CHUNK"); s != "" {
+		if n, _ := strconv.Atoi(s); n > 0 {
+			chunkSize = n
+		}
+	}
+	var out []*Script
+	for i := 0; i < len(ob.Cases); i += chunkSize {
+		j := i + chunkSize
+		if j > len(ob.Cases) {
+			j = len(ob.Cases)
+		}
+		sub := &Obligation{Name: ob.Name, Cases: ob.Cases[i:j]}
+		out = append(out, obligationScript(sub, prelude))
+	}
+	return out
+}
+
 func obligationScript(ob *Obligation, prelude string) *Script {
 	sc := &Script{Prelude: prelude}
 	if ob.Cover {
@@ -236,12 +275,15 @@ func (d *Discharger) prepare(ob *Obligation) {
 	if ob.Failure != "" || len(ob.Cases) == 0 {
 		return
 	}
-	sc := obligationScript(ob, d.prelude)
-	if !ob.Cover && sc.Asserts[0].IsFalse() {
-		ob.trivial = true
-		return
+	scs := obligationChunks(ob, d.prelude)
+	ob.trivial = true
+	for _, sc := range scs {
+		if !ob.Cover && sc.Asserts[0].IsFalse() {
+			continue
+		}
+		ob.trivial = false
+		ob.smts = append(ob.smts, sc.Render("", true))
 	}
-	ob.smt = sc.Render("", true)
 }
 
 func (d *Discharger) discharge(ob *Obligation) {
@@ -261,18 +303,96 @@ func (d *Discharger) discharge(ob *Obligation) {
 		ob.Result = &ObResult{Status: "trivial", Answer: "unsat", Backend: "simplifier"}
 		return
 	}
-	text := ob.smt
-	file := filepath.Join(d.dir, sanitize(ob.Name)+".smt2")
-	os.WriteFile(file, []byte(text), 0o644)
-	cvcText := "(set-logic ALL)\n" + text
-	cvcFile := filepath.Join(d.dir, sanitize(ob.Name)+".cvc5.smt2")
-	os.WriteFile(cvcFile, []byte(cvcText), 0o644)
-
 	want := "unsat"
 	if ob.Cover {
 		want = "sat"
 	}
-	res := &ObResult{SMTFile: file, SMTBytes: len(text), Outputs: map[string]string{}}
+	res := &ObResult{Outputs: map[string]string{}}
+	start := time.Now()
+	var mu sync.Mutex
+	var wg sync.WaitGroup
+	type chunkRes struct {
+		answer, backend, model, file string
+		agree                         []string
+		outs                          map[string]string
+	}
+	crs := make([]chunkRes, len(ob.smts))
+	for ci, text := range ob.smts {
+		wg.Add(1)
+		go func(ci int, text string) {
+			defer wg.Done()
+			cr := d.solveOne(ob, ci, text)
+			mu.Lock()
+			crs[ci] = cr
+			mu.Unlock()
+		}(ci, text)
+	}
+	wg.Wait()
+	res.Seconds = time.Since(start).Seconds()
+	res.Answer = want
+	if ob.Cover {
+		// any satisfiable path suffices
+		for _, cr := range crs {
+			if cr.answer == "sat" {
+				for i := range crs {
+					crs[i] = cr
+				}
+				break
+			}
+		}
+	}
+	for ci, cr := range crs {
+		res.SMTBytes += len(ob.smts[ci])
+		if res.Backend == "" {
+			res.Backend = cr.backend
+			res.Agree = cr.agree
+		}
+		if cr.answer != want {
+			// first failing chunk decides
+			res.Answer = cr.answer
+			res.Backend = cr.backend
+			res.Model = cr.model
+			res.SMTFile = cr.file
+			for k, o := range cr.outs {
+				res.Outputs[k] = o
+			}
+			break
+		}
+		if res.SMTFile == "" {
+			res.SMTFile = cr.file
+		}
+	}
+	switch {
+	case res.Answer == want && !ob.Cover:
+		res.Status = "proved"
+	case res.Answer == want && ob.Cover:
+		res.Status = "cover-ok"
+	case ob.Cover:
+		res.Status = "cover-failed"
+	default:
+		res.Status = "failed"
+	}
+	ob.Result = res
+}
+
+type chunkResT = struct {
+	answer, backend, model, file string
+	agree                         []string
+	outs                          map[string]string
+}
+
+func (d *Discharger) solveOne(ob *Obligation, ci int, text string) chunkResT {
+	var cr chunkResT
+	cr.outs = map[string]string{}
+	base := sanitize(ob.Name)
+	if len(ob.smts) > 1 {
+		base += fmt.Sprintf("~%d", ci)
+	}
+	file := filepath.Join(d.dir, base+".smt2")
+	os.WriteFile(file, []byte(text), 0o644)
+	cvcFile := filepath.Join(d.dir, base+".cvc5.smt2")
+	os.WriteFile(cvcFile, []byte("(set-logic ALL)\n"+text), 0o644)
+	cr.file = file
 	start := time.Now()
 	type ans struct {
 		b     string
@@ -284,11 +404,8 @@ func (d *Discharger) discharge(ob *Obligation) {
 		ctx, cancel := context.WithCancel(context.Background())
 		defer cancel()
 		ch := make(chan ans, len(backends))
-		var wg sync.WaitGroup
 		for _, b := range backends {
-			wg.Add(1)
 			go func(b backend) {
-				defer wg.Done()
 				f := file
 				if strings.HasPrefix(b.name, "cvc5") {
 					f = cvcFile
@@ -312,10 +429,8 @@ func (d *Discharger) discharge(ob *Obligation) {
 				}
 			}
 		}
-		go func() { wg.Wait() }()
 		return got
 	}
-	got := try(d.timeout)
 	decided := func(gs []ans) (string, string, []string) {
 		var agree []string
 		a := ""
@@ -335,18 +450,29 @@ func (d *Discharger) discharge(ob *Obligation) {
 		}
 		return a, first, agree
 	}
+	// stage 1: the usually fastest back end alone, briefly
+	var got []ans
+	{
+		d.sem <- struct{}{}
+		a1, out1 := runBackend(context.Background(), backends[0], file, 3)
+		<-d.sem
+		got = append(got, ans{backends[0].name, a1, out1, time.Since(start)})
+	}
 	a, first, agree := decided(got)
+	if a == "" || (d.thorough && len(agree) < 2) {
+		got = append(got, try(d.timeout)...)
+		a, first, agree = decided(got)
+	}
 	if a == "" {
 		got = append(got, try(d.timeout*3)...)
 		a, first, agree = decided(got)
 	}
 	for _, g := range got {
-		res.Outputs[g.b] = truncate(g.out, 4000)
+		cr.outs[g.b] = truncate(g.out, 4000)
 	}
-	res.Seconds = time.Since(start).Seconds()
-	res.Backend = first
 	sort.Strings(agree)
-	res.Agree = agree
+	cr.agree = agree
+	cr.backend = first
 	if a == "" {
 		a = "unknown"
 		for _, g := range got {
@@ -355,26 +481,16 @@ func (d *Discharger) discharge(ob *Obligation) {
 			}
 		}
 	}
-	res.Answer = a
-	switch {
-	case a == want && !ob.Cover:
-		res.Status = "proved"
-	case a == want && ob.Cover:
-		res.Status = "cover-ok"
-	case ob.Cover:
-		res.Status = "cover-failed"
-	default:
-		res.Status = "failed"
-		if a == "sat" {
-			for _, g := range got {
-				if g.a == "sat" {
-					res.Model = g.out
-					break
-				}
+	cr.answer = a
+	if a == "sat" {
+		for _, g := range got {
+			if g.a == "sat" {
+				cr.model = g.out
+				break
 			}
 		}
 	}
-	ob.Result = res
+	return cr
 }
 
 func truncate(s string, n int) string {
